@@ -45,8 +45,9 @@ CHECKS["C15"] = {
         "signal handlers are restored on every path (normal and exceptional) after they were replaced/saved, the "
         "result is fetched under a finally that cleans the reactor and records all junk, the stale-junk refusal "
         "dominates every mutation, the re-entrancy flag is set after its test and cleared on all paths, the result "
-        "is a strict three-way (failure raise / success return / NoResultError), callbacks cancel the timeout and "
-        "store into distinct fields, and result fields are reset per run. These are the code-shape guarantees "
+        "is a strict three-way (failure raise / success return / NoResultError), result fields are reset per run, and -- on a DelayedCall typestate (pending/called/cancelled; cancel() "
+        "raises unless pending) -- the result callbacks cancel a pending timeout and make _get_result return / raise "
+        "their argument, while after the timeout has fired a late result can no longer replace the TimeoutError. These are the code-shape guarantees "
         "behind the restoration clauses, which hold for all crash points by construction."
     ),
     "note": (
@@ -114,7 +115,7 @@ CHECKS["C04"] = {
         "under failfast are exactly error/failure/unexpected success in every class that consults failfast and the "
         "stream trigger set equals the statuses emitted for them; stop/shouldStop/failfast of every adapter resolve "
         "(through the MRO) to bodies that reach the wrapped results; startTestRun re-initialises every collection "
-        "outcomes append to while failfast/tb_locals survive. Each is a per-call invariant, so consistency over all "
+        "outcomes append to and every attribute stop()/startTest() write (shouldStop, testsRun) while failfast/tb_locals survive. Each is a per-call invariant, so consistency over all "
         "histories and adapter stacks follows by induction."
     ),
     "note": (
@@ -144,22 +145,26 @@ CHECKS["C08"] = {
 }
 
 CHECKS["C01"] = {
-    "technique": "typestate by abstract interpretation (finite domains, inlined callees, event monitors) + exceptional CFG rules",
+    "technique": "typestate by abstract interpretation (finite domains, inlined callees, event monitors; exception-kind and symbolic-handler-table runs) + exceptional CFG rules",
     "text": (
         "The runner's own code is interpreted abstractly with all user code symbolic (returns a non-sentinel value or "
         "raises) and with result methods / addOnException handlers allowed to raise: every abstract exit state of "
         "RunTest._run_prepared_result (389 states, 20 distinct event signatures on the pinned tree) has exactly one "
         "startTest and one stopTest, and every exit that is not a framework-exception path has exactly one outcome "
         "inside the bracket; no user exception escapes; the sentinel is returned iff an exception was recorded; user "
-        "code runs under a BaseException handler that reaches the recorder; the dispatch must read the whole recorded "
-        "list; unhandled kinds go to last_resort and are re-raised inside the bracket; run() pairs startTestRun/"
-        "stopTestRun iff it created the result. This covers the whole cross product of per-stage faults at once, "
-        "which is exactly what the suite cannot enumerate."
+        "code runs under a BaseException handler that reaches the recorder; a second abstract run in which user code "
+        "raises exception *kinds* (non-Exception / failure-or-error / skip-like / MultipleExceptions of any of them) "
+        "shows for every (raising stage, later stage) pair that a recorded non-Exception is re-raised out of the run "
+        "(this found the last-exception-wins interrupt defect, fixed); a third run over a symbolic three-entry handler "
+        "table shows that for each of the 20 relations between the exception and the table exactly one report is made, "
+        "and that an exception no entry matches goes to last_resort and is re-raised inside the bracket, whatever the "
+        "layout of the dispatch code; run() pairs startTestRun/stopTestRun iff it created the result. This covers the "
+        "whole cross product of per-stage faults at once, which is exactly what the suite cannot enumerate."
     ),
     "note": (
         "Behaviour when a user addOnException handler or a result method raises is only required to keep the bracket. "
-        "Per-flavour delivery of the calls is C08. Two genuine defects are recorded known findings (last exception "
-        "wins; empty MultipleExceptions yields no outcome). Assumes user code cannot obtain the runner's private "
+        "Per-flavour delivery of the calls is C08. One genuine defect is a recorded known finding (an empty "
+        "MultipleExceptions yields no outcome); the interrupt-masking defect was repaired (fix 8c94b68). Assumes user code cannot obtain the runner's private "
         "sentinel." + TRUSTED
     ),
 }
@@ -172,13 +177,17 @@ CHECKS["C03"] = {
         "such exit reports through exactly one handler. The exception_handlers table is resolved through the parsed "
         "class hierarchy: no shadowing, Exception exactly last, each entry bound to the _report_* that calls the "
         "matching result method once, last_resort = _report_error, onException's quiet list = the three signal "
-        "classes; the dispatch is first-match in list order; expectThat sets force_failure without raising and the "
-        "forced AssertionError is recorded before the success decision. Together these cover all ordered combinations "
-        "of exception kinds across stages, which the suite never mixes."
+        "classes; on a symbolic three-entry handler table the handler invoked is, for "
+        "each of the 20 relations between the exception and the table, exactly the first entry whose class matches "
+        "(loop, helper or two-pass code alike); on the exception-kind run a failure/error is never reported through "
+        "a later skip / expected failure (8 stage pairs violate this: known findings), and whenever force_failure is "
+        "set -- or was not examined after the last user stage -- the run ends unsuccessfully; expectThat sets the "
+        "flag without raising. Together these cover all ordered combinations of exception kinds across stages, which "
+        "the suite never mixes."
     ),
     "note": (
-        "Which of several recorded exceptions selects the outcome is the recorded known finding (last one wins: a "
-        "later skip masks an earlier failure). Paths on which an addOnException handler or a result method raises "
+        "Which of several recorded exceptions selects the outcome is the recorded known finding, one entry per "
+        "(failing stage, masking stage) pair (last one wins: a later skip masks an earlier failure). Paths on which an addOnException handler or a result method raises "
         "are outside the statement." + TRUSTED
     ),
 }
@@ -211,7 +220,7 @@ CHECKS["C05"] = {
         "else must use addDetailUniqueName -- this found the constant debug-detail name written in a loop, now fixed); "
         "recording an exception is dominated by onException, MultipleExceptions recurses per constituent, the user "
         "handler loop runs on all paths, expectFailure reports its traceback first; onException has one caller and the "
-        "dispatch follows _run_core; gathered details are eager snapshots with the original content type; mismatch "
+        "dispatch follows _run_core; gathered details are snapshots (every object the copy's callback hands out was materialised at copy time) with the original content type; mismatch "
         "details go through addDetailUniqueName. Name-collision behaviour is thereby decided for all names, not for "
         "the two or three the tests use."
     ),
@@ -228,8 +237,10 @@ CHECKS["C07"] = {
         "construction site, and get_details() to a dict-returning body; return-kind inference shows every describe "
         "returns text or delegates; %-formats whose right operand may be the matchee are tuple-safe (found "
         "MatchesPredicate, fixed); a nullness abstract interpretation with the verdict symbolic shows assertThat / "
-        "assert_that raise iff the verdict is a mismatch and expectThat never raises but forces failure. These hold "
-        "for every matchee, which example-based description tests cannot show."
+        "assert_that raise iff the verdict is a mismatch and expectThat never raises but sets force_failure; on the "
+        "abstract run of RunTest (exception kinds per stage) a set flag -- or one nothing examined after the last user "
+        "stage -- always ends in a failing outcome (found: setUp mismatch followed by a skip was reported as skip, "
+        "fixed). These hold for every matchee and every combination of stage faults, which example-based tests cannot show."
     ),
     "note": (
         "Not decided: text_repr output evaluating back to the original string over all code points, and non-ASCII "
@@ -320,7 +331,8 @@ CHECKS["C16"] = {
         "whose non-empty result is yielded; default charset ISO-8859-1. content_from_reader reads now iff buffer_now; "
         "file/stream helpers touch their source only inside the nested reader and pass chunk_size/seek through; "
         "text_content encodes with the charset it declares. Content equality compares type and joined bytes of both "
-        "sides; ContentType compares and renders every field."
+        "sides; ContentType compares and renders every field; every object the callback of a gathered copy can hand "
+        "out was materialised when the copy was made (never the source's own buffer, never a lazy iterator)."
     ),
     "note": (
         "Not decided (runtime values): round trips over the Unicode range, cut positions inside multi-byte "
@@ -350,8 +362,10 @@ CHECKS["C20"] = {
         "Static rules for twistedsupport/_matchers.py and _deferred.py: every callback the matchers attach to the "
         "matchee returns its first parameter on all paths (results stay intact for later callbacks); nothing calls "
         "callback/errback/cancel on the matchee (count 0, with an embedded positive example that must match); an "
-        "abstract interpretation of on_deferred_result over the four emptiness combinations of its capture lists shows "
-        "exactly one of the three callbacks is invoked and its value returned, both-non-empty raises; the per-state "
+        "abstract interpretation of on_deferred_result under each state a Deferred can be in (not fired; fired but "
+        "chain paused or waiting on a nested Deferred; result available; failure available -- with Deferred.called / "
+        ".result modelled as Twisted documents them) shows exactly the right one of the three callbacks is invoked and "
+        "its value returned, and the impossible both-captured state raises; the per-state "
         "verdict tables of _NoResult/_Succeeded/_Failed are the documented ones (success delegates on the value, "
         "failure on the Failure), so with Always() exactly one of the three matchers matches in each state; both "
         "failure arms add a swallowing errback; SynchronousDeferredRunTest._run_user and extract_result have the "
@@ -363,10 +377,12 @@ CHECKS["C20"] = {
 CHECKS["C14"] = {
     "technique": "truth/emptiness abstract interpretation of _run_core over all source combinations + catch-all sibling agreement + structural chain/pairing rules",
     "text": (
-        "AsynchronousDeferredRunTest._run_core is interpreted abstractly over all 16 combinations of its four problem "
-        "sources (blocking-run verdict, flushed logged errors, unhandled Deferreds, reactor junk): addSuccess is "
-        "delivered at most once and exactly when all four are clean, and every dirty source records an exception so "
-        "that C01's dispatch reports one outcome. Every place where user code or a user Deferred's failure surfaces in "
+        "AsynchronousDeferredRunTest._run_core is interpreted abstractly with _blocking_run_deferred inlined and the spinner "
+        "returning or raising TimeoutError / NoResultError, over all 24 combinations of its problem sources (run ok / "
+        "failed / timed out / interrupted; flushed logged errors; unhandled Deferreds; reactor junk): addSuccess is "
+        "delivered at most once and exactly when everything is clean, every dirty source records an exception so that "
+        "C01's dispatch reports one outcome, an interrupted run asks the result to stop, and on every path the logged "
+        "errors are flushed from the process-wide observer and the junk is collected (nothing leaks into the next test). Every place where user code or a user Deferred's failure surfaces in "
         "the Twisted runners is under a catch-all, in agreement with RunTest._run_user (found: async cleanups awaited "
         "under `except Exception`, fixed). _run_deferred chains setUp, test, tearDown (on both outcomes), cleanups (on "
         "both outcomes) and the forced failure, marking every failed stage; log observers are restored by cleanups "
